@@ -834,16 +834,21 @@ int main(int argc, char *argv[])
       char buffer[max_args_length];
       strcpy(buffer, p_arg);
 
-      // Tokenize and extract key and value
-      const char *token  = strtok(buffer, "=");
-      const char *option = token;
+      // Split at the first '=': the key in front of it, the value (which may contain '=' or be empty) behind it
+      char       *eq     = strchr(buffer, '=');
+      const char *option = nullptr;
+      const char *value  = nullptr;
 
-      token = strtok(nullptr, "=");
-      const char *value = token;
+      if (  eq != nullptr
+         && eq != buffer)
+      {
+         *eq    = 0;
+         option = buffer;
+         value  = eq + 1;
+      }
 
       if (  option != nullptr
-         && value != nullptr
-         && strtok(nullptr, "=") == nullptr)   // end of argument reached
+         && value != nullptr)
       {
          if (auto *opt = uncrustify::find_option(option))
          {
